@@ -6,9 +6,13 @@ package main
 
 import (
 	"bytes"
+	"compress/zlib"
+	"encoding/binary"
 	"fmt"
+	"hash/crc32"
 	"image"
 	"image/color"
+	"math"
 	"os"
 	"strconv"
 	"sync"
@@ -19,9 +23,39 @@ import (
 	"github.com/mandykoh/prism/ciexyz"
 	"github.com/mandykoh/prism/displayp3"
 	"github.com/mandykoh/prism/meta/autometa"
+	"github.com/mandykoh/prism/meta/pngmeta"
 	"github.com/mandykoh/prism/prophotorgb"
 	"github.com/mandykoh/prism/srgb"
 )
+
+// pngWithICCP builds a minimal PNG whose iCCP chunk carries the given (already compressed) stream.
+func pngWithICCP(w, h uint32, z []byte) []byte {
+	var b bytes.Buffer
+	b.Write([]byte{0x89, 'P', 'N', 'G', 0x0d, 0x0a, 0x1a, 0x0a})
+	chunk := func(typ string, data []byte) {
+		binary.Write(&b, binary.BigEndian, uint32(len(data)))
+		td := append([]byte(typ), data...)
+		b.Write(td)
+		binary.Write(&b, binary.BigEndian, crc32.ChecksumIEEE(td))
+	}
+	ihdr := make([]byte, 13)
+	binary.BigEndian.PutUint32(ihdr[0:], w)
+	binary.BigEndian.PutUint32(ihdr[4:], h)
+	ihdr[8], ihdr[9] = 8, 2
+	chunk("IHDR", ihdr)
+	chunk("iCCP", append([]byte("prof\x00\x00"), z...))
+	chunk("IDAT", nil)
+	chunk("IEND", nil)
+	return b.Bytes()
+}
+
+func deflate(p []byte) []byte {
+	var b bytes.Buffer
+	w := zlib.NewWriter(&b)
+	w.Write(p)
+	w.Close()
+	return b.Bytes()
+}
 
 func main() {
 	n := 8
@@ -32,6 +66,18 @@ func main() {
 	if len(os.Args) > 2 {
 		file, _ = os.ReadFile(os.Args[2])
 	}
+	// PNGs with embedded profiles: valid ones of several sizes and one whose stream zlib rejects
+	var pngs [][]byte
+	var profs [][]byte
+	for k, sz := range []int{300, 3000, 70000} {
+		p := make([]byte, sz)
+		for i := range p {
+			p[i] = byte(i*7 + k*13 + i/251)
+		}
+		profs = append(profs, p)
+		pngs = append(pngs, pngWithICCP(uint32(10+k), 7, deflate(p)))
+	}
+	badPNG := pngWithICCP(3, 3, []byte("this is not a zlib stream at all, just text"))
 	start := make(chan struct{})
 	var wg sync.WaitGroup
 	results := make([]uint64, n)
@@ -64,6 +110,42 @@ func main() {
 				srgb.EncodeImage(dst, dst, 3)
 				out := prism.ConvertImageToRGBA(dst, 2)
 				h += uint64(out.Pix[5])
+				// XYZ conversions of every space at first use, Lab with a different white per goroutine
+				lin := [3]float32{0.25 + float32(g%4)/8, 0.5, 0.75}
+				for _, x := range []ciexyz.Color{srgb.ColorFromLinear(lin[0], lin[1], lin[2]).ToXYZ(), adobergb.ColorFromLinear(lin[0], lin[1], lin[2]).ToXYZ(),
+					prophotorgb.ColorFromLinear(lin[0], lin[1], lin[2]).ToXYZ(), displayp3.ColorFromLinear(lin[0], lin[1], lin[2]).ToXYZ()} {
+					h = h*31 + uint64(math.Float32bits(x.X)) + uint64(math.Float32bits(x.Y))<<1 + uint64(math.Float32bits(x.Z))<<2
+					pp := prophotorgb.ColorFromXYZ(x)
+					sp := srgb.ColorFromXYZ(x)
+					h = h*31 + uint64(math.Float32bits(pp.R)) + uint64(math.Float32bits(sp.G))
+					white := []ciexyz.Color{ciexyz.D50, ciexyz.D65, {X: 0.9, Y: 1, Z: 0.7}, {X: 1.1, Y: 0.95, Z: 1.2}}[g%4]
+					lab := x.ToLAB(white)
+					back := ciexyz.ColorFromLAB(lab, white)
+					h = h*31 + uint64(math.Float32bits(lab.L)) + uint64(math.Float32bits(lab.A))<<1 + uint64(math.Float32bits(lab.B))<<2 + uint64(math.Float32bits(back.Y))
+				}
+				// PNG loads with embedded profiles (valid, and one zlib rejects) from many goroutines
+				for j := 0; j < 4; j++ {
+					idx := (g + j + k) % 4
+					if idx == 3 {
+						md, _, err := pngmeta.Load(bytes.NewReader(badPNG))
+						if err != nil || md == nil {
+							h += 999
+						} else if d, e := md.ICCProfileData(); d != nil || e == nil {
+							h += 777 // a rejected stream must give (nil, error)
+						}
+						continue
+					}
+					md, _, err := pngmeta.Load(bytes.NewReader(pngs[idx]))
+					if err != nil || md == nil {
+						h += 555
+						continue
+					}
+					d, e := md.ICCProfileData()
+					if e != nil || !bytes.Equal(d, profs[idx]) {
+						h += 333 // profile bytes differ from what was embedded
+					}
+					h += uint64(md.PixelWidth)
+				}
 				// metadata loaders
 				if file != nil {
 					md, _, err := autometa.Load(bytes.NewReader(file))
